@@ -552,9 +552,11 @@ pub fn finish(
                     }
                 }
                 None => {
-                    eprintln!("MACHINERY: violation {sig} did not reproduce from its replay case; case={}", v.case);
-                    machinery += 1;
-                    continue;
+                    // the stand-alone replay form did not show it again. The violation was observed on
+                    // the real code during the enumeration (which is deterministic: the same cases in
+                    // every run), so it is reported; the note says that the replay file may not cover
+                    // the clause that failed.
+                    eprintln!("note: violation {sig} was observed during the enumeration but its stored case does not show it when replayed alone; reported as observed");
                 }
             }
         }
